@@ -1,5 +1,5 @@
 (* C12 — Close ends everything promptly and for good. *)
-From P2PV Require Import Lib.Base Model.Hub Proofs.HubP Model.Queue Proofs.QueueP.
+From P2PV Require Import Lib.Base Model.Hub Proofs.HubP Model.Queue Proofs.QueueP Model.QueueBuf Proofs.QueueBufP.
 
 (* every Receive/ServeAsk/Deliver that is parked when the hub closes can return
    the close error at once: nothing it waits for can keep it *)
@@ -53,9 +53,18 @@ Theorem C12_queue_invariant : forall cap mtu ops,
   QInv (fst (qhrun (new_queue cap mtu) (mkH [] []) ops)) (snd (qhrun (new_queue cap mtu) (mkH [] []) ops)).
 Proof. intros. apply qrun_inv, qinv_new. Qed.
 
+(* the same at the level of buffers and under ANY interleaving (Receive callbacks still
+   running, Deliver, Purge, further Close calls): once the closed signal is set nothing is
+   accepted any more and no callback is handed a message *)
+Theorem C12_queue_nothing_after_close_concurrent : forall evs s s' os,
+  ClosedEmpty s -> b_closed s = true -> brun s evs = Some (s', os) ->
+  forall o, In o os -> match o with BWrote _ | BGot _ _ => False | _ => True end.
+Proof. exact nothing_after_close. Qed.
+
 Print Assumptions C12_blocked_calls_released.
 Print Assumptions C12_no_delivery_after_close.
 Print Assumptions C12_no_spurious_result.
 Print Assumptions C12_close_idempotent.
 Print Assumptions C12_queue_closed_is_final.
 Print Assumptions C12_queue_invariant.
+Print Assumptions C12_queue_nothing_after_close_concurrent.
